@@ -14,7 +14,7 @@ from ..cfg import CFG
 from ..core import AnalysisError, Repo, Report, call_name, calls_in, kwarg, module_const, norm, parents_map, walk_local
 from ..dataflow import DefUse
 from ..sites import guard_chain
-from .util import attr_stores, canon, cguards
+from .util import attr_stores, canon, cguards, cguards_any
 
 
 def _sigref_literals(f) -> list[tuple[str, ast.Call]]:
@@ -81,7 +81,7 @@ def run(repo: Repo, rep: Report, tier: str) -> None:
     for name, operand in (("bundle_arithmetic", "operand"), ("bundle_decider", "compare_value"), ("bundle_gating_decider", "left")):
         m = b.methods[name]
         flags = [n for n in walk_local(m.node) if isinstance(n, ast.Assign) and "needs_wire_separation" in norm(n.targets[0]) and norm(n.value) == "True"]
-        ok = bool(flags) and any(t == f"isinstance({operand}, SignalRef)" and pol for t, pol in cguards(m, flags[0]))
+        ok = bool(flags) and any(t == f"isinstance({operand}, SignalRef)" and pol for t, pol in cguards_any(m, flags[0]))
         rep.check(ok, "C02-R2", f"{name} flags wire separation when `{operand}` is a signal", norm(flags[0]) if flags else "flag never set", m.loc())
     ep = repo.cls("EntityPlacer")
     pa = ep.methods["_place_arithmetic"]
@@ -100,7 +100,7 @@ def run(repo: Repo, rep: Report, tier: str) -> None:
     kinds = {}
     for n in locks:
         gs = cguards(dl, n)
-        if not any("needs_wire_separation" in t and not pol for t, pol in gs):
+        if not any("needs_wire_separation" in t and pol for t, pol in gs):
             continue
         for t, pol in gs:
             if pol and ".entity_type ==" in t:
